@@ -506,6 +506,7 @@ def run(ctx) -> None:
     from . import C14
 
     C14.own_key_rule(ctx, 'C06.parse-never-fails')
+    shared.r_reduce(ctx, [c for c in prog.classes.values() if c.module.name.startswith('forml.provider.feed')])  # readers travel to workers by pickle
     C14.logical_factors(ctx)
     context_isolation(ctx)
     C14.lazy_columns(ctx)
